@@ -27,7 +27,7 @@ Definition enc (v : value) : string :=
   | VDur z => dec z
   | VBool true => "true"
   | VBool false => "false"
-  | VStr s => quote ++ hex s ++ quote
+  | VStr s => (quote ++ hex s ++ quote)%string
   | _ => "null"
   end.
 
@@ -35,10 +35,10 @@ Fixpoint join (sep : string) (l : list string) : string :=
   match l with
   | [] => EmptyString
   | [x] => x
-  | x :: r => x ++ sep ++ join sep r
+  | x :: r => (x ++ sep ++ join sep r)%string
   end.
 
-Definition fn_id (args : list value) : string := "[" ++ join "," (map enc args) ++ "]".
+Definition fn_id (args : list value) : string := ("[" ++ join "," (map enc args) ++ "]")%string.
 
 (* the registry key: function name and id *)
 Definition once_key (fname : string) (args : list value) : string * string := (fname, fn_id args).
